@@ -120,6 +120,72 @@ pub fn dense_loop<S: Source>(s: &mut S, input: &[usize], inp: usize, out: usize,
     forget((act, init));
 }
 
+/// one iteration of a stack of two conv layers (the first layer's parameters receive their
+/// gradient through the second convolution's *input* derivative) with the bilinear cost
+pub fn conv2_loop<S: Source>(
+    s: &mut S,
+    input: &[usize],
+    f1: (usize, usize, usize, usize),
+    f2: (usize, usize, usize, usize),
+    stride2: (usize, usize),
+) {
+    let dom = Dom::D2;
+    let lr = s.lr();
+    let gd = GradientDescent::new(lr);
+    let n1 = f1.0 * f1.1 * f1.2 * f1.3 + f1.0;
+    let n2 = f2.0 * f2.1 * f2.2 * f2.3 + f2.0;
+    let i1 = initializer(s.vals(n1, dom));
+    let i2 = initializer(s.vals(n2, dom));
+    let mut l1 = Conv::new(f1, (1, 1), &i1, None);
+    let mut l2 = Conv::new(f2, stride2, &i2, None);
+    let ndir = n1 + n2;
+    // parameters as reference variables: layer 1 first, then layer 2
+    let mut pv: Vec<T> = Vec::new();
+    let mut first = 0;
+    for p in l1.parameters().into_iter().chain(l2.parameters().into_iter()) {
+        pv.push(T::var(p.dimensions(), p.values().to_vec(), first, ndir));
+        first += p.values().len();
+    }
+    let x = mk(s, input, dom);
+    let xr = T::konst(x.dimensions(), x.values().to_vec(), ndir);
+    let h = l1.forward(x.clone());
+    let y = l2.forward(h.clone());
+    let t = mk(s, y.dimensions(), dom);
+    let tr = T::konst(t.dimensions(), t.values().to_vec(), ndir);
+    let err = &y * &t;
+    err.backward(None);
+    let loss = err.sum_all();
+    let hr = refmodel::conv(&xr, &pv[0], (1, 1)).expect("[ref]").add(&pv[1]);
+    let yr = refmodel::conv(&hr, &pv[2], stride2).expect("[ref]").add(&pv[3]);
+    let er = yr.mul(&tr);
+    let mut lref: Float = 0.0;
+    for v in er.v.iter() {
+        lref += *v;
+    }
+    chk!(same(loss, lref, false), "[c14:loss] the iteration's loss is not the loss of the current parameters on the current batch");
+    let ones = vec![1.0 as Float; er.len()];
+    let g = refmodel::vjp_all(&er, &ones);
+    let old: Vec<Vec<Float>> = pv.iter().map(|p| p.v.clone()).collect();
+    let mut params = l1.parameters();
+    params.append(&mut l2.parameters());
+    gd.update(params);
+    let mut first = 0;
+    for (pi, p) in l1.parameters().into_iter().chain(l2.parameters().into_iter()).enumerate() {
+        chk!(dims_eq(p.dimensions(), &pv[pi].d), "[c14:param-dims] an update changed a parameter's dimensions");
+        chk!(p.gradient().is_none(), "[c14:gradient-left] a gradient survived the update");
+        for k in 0..old[pi].len() {
+            chk!(
+                same(p.values()[k], old[pi][k] - lr * g[first + k], false),
+                "[c14:step] parameter did not move by -lr times the exact gradient of the current loss"
+            );
+        }
+        first += old[pi].len();
+    }
+    witness();
+    forget((l1, l2, x, h, y));
+    forget((t, err, i1, i2));
+}
+
 /// one iteration of a conv layer (1 filter) with the bilinear cost
 pub fn conv_loop<S: Source>(s: &mut S, input: &[usize], filt: (usize, usize, usize, usize), stride: (usize, usize), iterations: usize) {
     let dom = Dom::D2;
